@@ -16,10 +16,12 @@
 //	                ledger.ValidateOpCert (the opcert mechanism the property is anchored in)
 //
 // Oracle: the produced header is accepted by both pipelines; every single-field mutant
-// (regime A: field changed, KES signature left alone; regime B, opcert group only: field
-// changed and the header re-signed with a hot key at the matching evolution, i.e. the
-// attacker holds a KES key but not the cold key), every changed body and every header at a
-// KES period outside the window is rejected by both.
+// (regime A: field changed, KES signature left alone; regime B: field changed, header body
+// re-serialised and re-signed with the genuine hot key at the matching evolution — plus
+// forged operational certificates signed with other keys), every changed body and every
+// header at a KES period outside the window is rejected by both. Under regime B a pipeline
+// is only required to refuse when something other than the KES signature binds the field
+// (see mustRefuseResigned).
 package main
 
 import (
@@ -34,6 +36,7 @@ import (
 	"math/big"
 	"os"
 	"sort"
+	"strings"
 	"sync"
 
 	"golang.org/x/crypto/blake2b"
@@ -334,8 +337,19 @@ type base struct {
 	bp    bodyParts
 }
 
+var signerCache sync.Map // seed|evolution -> *kesSigner (kes.Sign only reads the key)
+
+func cachedKES(seed []byte, evo uint64) *kesSigner {
+	k := fmt.Sprintf("%x|%d", seed, evo)
+	if v, ok := signerCache.Load(k); ok {
+		return v.(*kesSigner)
+	}
+	v, _ := signerCache.LoadOrStore(k, newKES(seed, evo))
+	return v.(*kesSigner)
+}
+
 func (b *base) resign(h hdr, seed []byte, evo uint64) hdr {
-	s := newKES(seed, evo)
+	s := cachedKES(seed, evo)
 	sig, err := s.Sign(bodyNode(b.c.mode, h).Encode())
 	if err != nil {
 		panic(err)
@@ -407,14 +421,17 @@ func (b *base) mutants(thorough bool, salt int) []mutant {
 		}
 		out = append(out, mutant{name: name, field: field, regime: "B", h: b.resign(h, seed, e)})
 	}
-	for _, d := range []int64{-1, 1} {
-		d := d
-		addB(fmt.Sprintf("resigned:opcert-seq%+d", d), "opcert-seq", b.p.kesSeed, func(h *hdr) { h.Seq = uint32(int64(h.Seq) + d) })
-		addB(fmt.Sprintf("resigned:opcert-kes-period%+d", d), "opcert-kes-period", b.p.kesSeed, func(h *hdr) { h.KesPeriod = uint32(int64(h.KesPeriod) + d) })
-	}
-	for _, i := range bitPositions(64, thorough, salt) {
-		i := i
-		addB(fmt.Sprintf("resigned:opcert-cold-sig-bit-%d", i), "opcert-cold-sig", b.p.kesSeed, func(h *hdr) { h.ColdSig = flip(h.ColdSig, i) })
+	// every regime-A mutant of a header-body field again, now re-signed with the pool's genuine
+	// hot key at the evolution the validators will derive from (slot, opcert start period)
+	for _, a := range append([]mutant{}, out...) {
+		if a.field == "kes-signature" {
+			continue
+		}
+		e, ok := evoFor(a.h)
+		if !ok {
+			continue
+		}
+		out = append(out, mutant{name: "resigned:" + a.name, field: a.field, regime: "B", h: b.resign(a.h, b.p.kesSeed, e)})
 	}
 	attacker := seedBytes("attacker-kes", int64(salt))
 	addB("resigned:hot-key-substituted", "opcert-hot-vkey", attacker, func(h *hdr) { h.HotVkey = newKES(attacker, 0).pub })
@@ -454,6 +471,31 @@ func (b *base) mutants(thorough bool, salt int) []mutant {
 		alt("invalid-txs-indefinite-empty-array", repl(3, []byte{0x9f, 0xff}))
 	}
 	return out
+}
+
+// mustRefuseResigned says whether a pipeline has to refuse a header whose field was changed
+// and which was then re-signed with the genuine hot key, i.e. whether something other than
+// the KES signature binds that field:
+//   - slot: the VRF input is (slot, epoch nonce); the proof no longer verifies
+//   - VRF key / output / proof (and the TPraos nonce certificate): certified VRF
+//   - issuer key, hot key, counter, start period, cold signature: the operational certificate
+//   - body hash: the body (ledger side, which has the body)
+//   - block number, previous hash: the chain context (consensus side, which is given it)
+//
+// Body size and protocol version are bound by nothing but the KES signature in either
+// pipeline; VerifyBlock documents that it verifies the leader VRF only and has no chain
+// context. Those combinations are recorded, not judged.
+func mustRefuseResigned(side, field string) bool {
+	switch field {
+	case "slot", "issuer-vkey", "vrf-key", "vrf-output", "vrf-proof", "vrf-certs-swapped",
+		"opcert-hot-vkey", "opcert-seq", "opcert-kes-period", "opcert-cold-sig", "opcert-foreign":
+		return true
+	case "nonce-vrf-output", "nonce-vrf-proof", "block-number", "prev-hash":
+		return side == "consensus"
+	case "body-hash":
+		return side == "ledger"
+	}
+	return false
 }
 
 // ------------------------------------------------------------------ main
@@ -642,22 +684,40 @@ func main() {
 			bp = *m.bp
 		}
 		kf := "field=" + m.field
-		if m.regime == "B" {
+		if m.regime == "B" && strings.HasPrefix(m.field, "opcert") {
 			kf = "group=opcert" // one protection (the cold signature) guards the whole group
 		}
+		expectL, expectC := true, true
+		if m.regime == "B" {
+			expectL, expectC = mustRefuseResigned("ledger", m.field), mustRefuseResigned("consensus", m.field)
+		}
 		la, lstage, _ := ledgerSide(b.c, m.h, bp)
-		outcomes[k] = append(outcomes[k], "mutant:ledger-accepted="+fmt.Sprint(la))
-		mu.Lock()
-		stages["mutant:ledger-refused-at:"+lstage]++
-		mu.Unlock()
 		if la {
+			lstage = "(accepted; not judged)"
+			if expectL {
+				lstage = "(accepted: VIOLATION)"
+			}
+		}
+		mu.Lock()
+		stages["mutant:regime="+m.regime+":ledger-refused-at:"+lstage]++
+		mu.Unlock()
+		if !expectL {
+			outcomes[k] = append(outcomes[k], fmt.Sprintf("resigned-mutant,no-semantic-check-stated:ledger-accepted=%v", la))
+		} else {
+			outcomes[k] = append(outcomes[k], "mutant:ledger-accepted="+fmt.Sprint(la))
+		}
+		if la && expectL {
 			results[k] = append(results[k], result{fmt.Sprintf("VerifyBlock+ValidateOpCert|mutant-accepted|%s|regime=%s", kf, m.regime),
 				fmt.Sprintf("%s: mutant %s accepted by NewBlockFromCbor+VerifyBlock+ValidateOpCert", b.id, m.name), rp(m.name)})
 		}
 		if m.regime != "body" {
 			cv, _ := consensusSide(b.c, m.h)
-			outcomes[k] = append(outcomes[k], "mutant:consensus-accepted="+fmt.Sprint(cv))
-			if cv {
+			if !expectC {
+				outcomes[k] = append(outcomes[k], fmt.Sprintf("resigned-mutant,no-semantic-check-stated:consensus-accepted=%v", cv))
+			} else {
+				outcomes[k] = append(outcomes[k], "mutant:consensus-accepted="+fmt.Sprint(cv))
+			}
+			if cv && expectC {
 				results[k] = append(results[k], result{fmt.Sprintf("ValidateHeader|mutant-accepted|%s|regime=%s", kf, m.regime),
 					fmt.Sprintf("%s: mutant %s accepted by ValidateHeader", b.id, m.name), rp(m.name)})
 			}
@@ -692,9 +752,9 @@ func main() {
 		c.Sample(map[string]any{"base": b.id, "mutant": ms[0].name, "regime": ms[0].regime})
 		c.Sample(map[string]any{"base": b.id, "mutant": ms[len(ms)-1].name, "regime": ms[len(ms)-1].regime})
 	}
-	c.Set("rule", "base headers = real BuildHeader output for (layout x pool x KES evolution) at the first slots the pool leads; cases = the produced header itself (must pass both pipelines; outside the KES window must fail both) + every single-field mutant (regime A: KES signature left alone; regime B: opcert group re-signed with a hot key) + every changed body; class = field x regime x layout x evolution; non-trivial = every case (each one is a full cryptographic validation)")
+	c.Set("rule", "base headers = real BuildHeader output for (layout x pool x KES evolution) at the first slots the pool leads; cases = the produced header itself (must pass both pipelines; outside the KES window must fail both) + every single-field mutant (regime A: KES signature left alone; regime B: every header-body field mutated, body re-serialised and re-signed with the genuine hot key at the matching evolution, plus forged operational certificates) + every changed body; class = field x regime x layout x evolution; non-trivial = every case (each one is a full cryptographic validation)")
 	c.Assume("the repository's VRF and KES provers and ed25519 are trusted (C38/C39 check the verifiers); leadership of the chosen slots is decided by the real threshold code (C37)")
 	c.Assume("ledger side = NewBlockFromCbor + VerifyBlock (transaction and stake-pool validation skipped: no ledger state) AND ledger.ValidateOpCert; a mutant refused at decode counts as refused")
-	c.Assume("regime B (re-signed) is applied only to the operational-certificate group, which the statement names separately and which is protected by the cold signature rather than by the KES signature")
+	c.Assume("regime B (re-signed): a pipeline must refuse when something other than the KES signature binds the field (VRF certificate, operational certificate, body, chain context it is given); body size and protocol version on both sides, and block number / previous hash / TPraos nonce certificate on the ledger side (VerifyBlock documents: leader VRF only, no chain context) are recorded but not judged")
 	c.Finish()
 }
